@@ -20,7 +20,14 @@ def h(*a) -> int:
     return int(hashlib.sha256(repr(a).encode()).hexdigest()[:12], 16)
 
 
-def meta_for(typ: str, api: str | None = None) -> dict:
+def declares_set_events(sc: dict, i: int) -> bool:
+    """A third of the simulators declare `set_events: True` in their meta data (the documented flag of simulators that may call
+    set_event); it changes nothing about what a reply must look like.  Derived from the behaviour seed: part of the scenario."""
+    s = sc["sims"][i]
+    return bool(s.get("set_events", h(sc.get("beh_seed", 0), s.get("name", i), "set_events") % 3 == 0))
+
+
+def meta_for(typ: str, api: str | None = None, set_events: bool = False) -> dict:
     """api: an older API version the simulator reports (mosaik then talks to it through its adapters: no max_advance in
     step(), no setup_done() below 2.2); the explicitly reported type is respected whatever the version."""
     m = {"public": True, "params": [], "attrs": list(ATTRS)}
@@ -33,7 +40,10 @@ def meta_for(typ: str, api: str | None = None) -> dict:
     if typ == "hybrid":
         pm["trigger"] = ["nt"]
         pm["non-persistent"] = ["pe"]
-    return {"api_version": api or "3.0", "type": typ, "models": {"M": m, "P": pm}}
+    meta = {"api_version": api or "3.0", "type": typ, "models": {"M": m, "P": pm}}
+    if set_events:
+        meta["set_events"] = True
+    return meta
 
 
 def desc_line(typ: str) -> str:
@@ -158,7 +168,7 @@ def build_from(sc: dict):
 
         def start(i):
             s = sims[i]
-            ScriptSim.REG[f"S{i}"] = {"ctl": controller, "meta": meta_for(s["type"], s.get("api")), "script": make_script(sc, i)}
+            ScriptSim.REG[f"S{i}"] = {"ctl": controller, "meta": meta_for(s["type"], s.get("api"), declares_set_events(sc, i)), "script": make_script(sc, i)}
             if s.get("via_parent"):
                 # the entities that get connected are the children (model M) of two parents of another model
                 ents[i] = [par.children[0] for par in world.start("S", sim_id=f"S{i}").P.create(2)]
@@ -657,6 +667,12 @@ def gen_scenario(rng: random.Random, groups: bool = True, async_req: bool = Fals
         sc["fault"] = {"sim": rng.randrange(n), "n": rng.randrange(0, 4),
                        "kind": rng.choice(["float", "str", "bool", "negative", "equal", "past", "none", "out_time_past", "out_time_zero",
                                            "out_time_zero", "float_integral"])}
+        tb = [i for i in range(n) if sims[i]["type"] == "time-based"]
+        if tb and rng.random() < 0.15:
+            # the one reply that is only wrong for one simulator type: a time-based simulator announcing no next step
+            # (whatever else its meta data declares, e.g. set_events)
+            sc["fault"] = {"sim": rng.choice(tb), "n": rng.randrange(0, 3), "kind": "none"}
+            sc["sims"][sc["fault"]["sim"]]["set_events"] = rng.random() < 0.5
     return normalise(sc)
 
 
@@ -683,6 +699,37 @@ def gen_future_shift_scenario(rng: random.Random) -> dict:
         connects.append({"src": len(sims) - 1, "seid": 0, "dst": 0, "deid": 1, "sattr": 2, "dattr": 1, "ts": 0, "weak": False, "init": False, "async": False})
     sc = {"sims": sims, "connects": connects, "until": rng.randint(4, 6), "max_loop": 100, "lazy": rng.random() < 0.5, "cache": rng.random() < 0.3,
           "beh_seed": rng.randrange(10 ** 9), "sparse_persistent": False, "future_outputs": True}
+    return normalise(sc)
+
+
+def gen_multi_shift_scenario(rng: random.Random) -> dict:
+    """One producer whose persistent output is read over connections with DIFFERENT time shifts (one of them >= 2, the only one with
+    initial data; the others plain or shift 1 into a trigger input), made in either order: how long a cached value must be kept
+    depends on the largest shift, whichever connection was made last."""
+    p_type = rng.choice(["time-based", "time-based", "hybrid"])
+    sims = [{"type": p_type, "group": [], "init_ev": None}]
+    conns = []
+    big = rng.choice([2, 2, 3])
+    sims.append({"type": rng.choice(["time-based", "hybrid"]), "group": [], "init_ev": None})
+    conns.append({"src": 0, "seid": rng.randrange(2), "dst": 1, "deid": rng.randrange(2), "sattr": 2, "dattr": 0, "ts": big, "weak": False,
+                  "init": True, "async": False})
+    for _ in range(rng.choice([1, 1, 2])):
+        c_type = rng.choice(["time-based", "hybrid", "hybrid"])
+        sims.append({"type": c_type, "group": [], "init_ev": None})
+        d = len(sims) - 1
+        if c_type == "hybrid" and rng.random() < 0.5:
+            conns.append({"src": 0, "seid": rng.randrange(2), "dst": d, "deid": rng.randrange(2), "sattr": 2, "dattr": 1, "ts": 1, "weak": False,
+                          "init": False, "async": False})
+        else:
+            conns.append({"src": 0, "seid": rng.randrange(2), "dst": d, "deid": rng.randrange(2), "sattr": 2, "dattr": 0, "ts": 0, "weak": False,
+                          "init": False, "async": False})
+    if rng.random() < 0.5:
+        conns.reverse()
+    if rng.random() < 0.3:
+        # the second reader lives in the consumer of the long shift itself (two connections between one pair)
+        conns.append({"src": 0, "seid": 0, "dst": 1, "deid": 1, "sattr": 2, "dattr": 0, "ts": 0, "weak": False, "init": False, "async": False})
+    sc = {"sims": sims, "connects": conns, "until": rng.randint(5, 7), "max_loop": 100, "lazy": rng.random() < 0.5, "cache": rng.random() < 0.8,
+          "beh_seed": rng.randrange(10 ** 9), "sparse_persistent": False, "future_outputs": False}
     return normalise(sc)
 
 
